@@ -539,14 +539,15 @@ DUAL = {
     ("riscv:rvc", "b_imm12"): (12, 2), ("riscv:rvc", "b_imm20"): (20, 2), ("riscv:rvc", "bc_imm11"): (11, 2),
     ("riscv:rvc", "bc_imm8"): (8, 2), ("riscv:rvc", "cb_imm11"): (20, 2), ("riscv:rvc", "cbl_imm11"): (20, 2),
     ("arm", "imm24"): (24, 4),
-    ("xtensa", "call18"): (18, 1), ("xtensa", "call0"): (18, 4), ("xtensa", "ri16"): (16, 4),
-    ("xtensa", "bri12"): (12, 1),
 }
+# the same acceptance of the upper half on xtensa belongs to F_XTRANGE (one repair covers that file)
+DUAL_XT = {("xtensa", "call18"): (18, 1), ("xtensa", "call0"): (18, 4), ("xtensa", "ri16"): (16, 4),
+           ("xtensa", "bri12"): (12, 1)}
 # types that store the value without any range check
 NOCHECK = {("x86_64", "jmp8"), ("x86_64", "rel32"), ("x86_64", "abs32"),
            ("m68k", "rel16"), ("m68k", "branch_rel32"), ("or1k", "jump"),
            ("microblaze", "R_MICROBLAZE_64_PCREL"), ("microblaze", "R_MICROBLAZE_64_ABS"),
-           ("mcs6500", "rel8"), ("mips", "abs26")}
+           ("mcs6500", "rel8")}
 
 
 # ---------------------------------------------------------------------------
@@ -951,8 +952,8 @@ def gen_case(r, isa, car, avoid, idx):
                     continue
                 if S >= space and not (want_bad and ty.kind == "abs"):
                     continue
-                if x["type"] in RELAXABLE and -2048 - 64 <= S - I <= 2047 + 64:
-                    continue
+                if x["type"] in RELAXABLE and (-2048 - 64 <= S - I <= 2047 + 64 or (S + A) % 2):
+                    continue      # narrowing (1): the shrink decision itself is C13's
                 if (isa, x["type"]) in (("arm", "ldr_imm12"), ("arm", "adr_imm12")) and S % 4:
                     continue      # narrowing (3)
                 if not allowed(isa, x["type"], ty, S, A, I, F, avoid):
@@ -1019,6 +1020,10 @@ def allowed(isa, typ, ty, S, A, I, F, avoid):
         n, sc = DUAL[key]
         if v % sc == 0 and (1 << (n - 1)) <= v // sc <= (1 << n) - 1:
             return False
+    if F_XTRANGE in avoid and key in DUAL_XT and not rep:
+        n, sc = DUAL_XT[key]
+        if v % sc == 0 and (1 << (n - 1)) <= v // sc <= (1 << n) - 1:
+            return False
     if F_NOCHECK in avoid and key in NOCHECK and not rep:
         return False
     if F_THUMBJ in avoid and key in (("arm:thumb", "bl_imm11"), ("arm:thumb", "b_imm11_imm6")):
@@ -1050,8 +1055,7 @@ EDGE_EXCLUDED = {
 # (isa, type) -> alignment of the symbol value the relocation type insists on although the field can hold any address
 ODD_REJECTED = {("riscv", "abs32_imm20"): 2, ("riscv", "abs32_imm12"): 2, ("riscv", "rel_imm20"): 2,
                 ("riscv", "rel_imm12"): 2, ("riscv:rvc", "abs32_imm20"): 2, ("riscv:rvc", "abs32_imm12"): 2,
-                ("riscv:rvc", "rel_imm20"): 2, ("riscv:rvc", "rel_imm12"): 2, ("msp430", "abs16"): 2,
-                ("arm", "ldr_imm12"): 4, ("arm", "adr_imm12"): 4}
+                ("riscv:rvc", "rel_imm20"): 2, ("riscv:rvc", "rel_imm12"): 2, ("msp430", "abs16"): 2}
 ODD_SITE = set()
 # xtensa: J rejects the four lowest offsets; L32R (always backwards) accepts forward offsets and rejects the far half
 XT_WRONG = {("xtensa", "call18"): lambda v: -131072 <= v <= -131069,
